@@ -743,6 +743,87 @@ def rule_cutoff_total(chk):
 
 
 # ----------------------------------------------------------------------------
+# rule 6: exp overflow ratios in the feature maps
+# ----------------------------------------------------------------------------
+def _bounded_exp_arg(a):
+    """-abs(..), -(..)**2, -(x*x): the exponential is <= 1"""
+    if isinstance(a, ast.UnaryOp) and isinstance(a.op, ast.USub):
+        o = a.operand
+        if isinstance(o, ast.Call) and pf.call_name(o) in ("np.abs", "np.fabs", "np.absolute", "abs", "np.square"):
+            return True
+        if isinstance(o, ast.BinOp) and isinstance(o.op, ast.Pow) and isinstance(o.right, ast.Constant) \
+                and isinstance(o.right.value, int) and o.right.value % 2 == 0:
+            return True
+        if isinstance(o, ast.BinOp) and isinstance(o.op, ast.Mult) and pf.src(o.left) == pf.src(o.right):
+            return True
+        if isinstance(o, ast.BinOp) and isinstance(o.op, ast.Mult):
+            return _bounded_exp_arg(ast.UnaryOp(op=ast.USub(), operand=o.left)) or \
+                _bounded_exp_arg(ast.UnaryOp(op=ast.USub(), operand=o.right))
+    return False
+
+
+def rule_exp_ratio(chk, prog):
+    """A quotient whose numerator and denominator both contain the same unbounded exponential
+    (exp(t) / (1 + exp(t))**2) is inf / inf = nan for large t although its limit is finite; it must be
+    evaluated in a bounded form (exp(-|t|))."""
+    td = prog.module(TD)
+    n = 0
+    for m, c in prog.subclasses("FeatureNormalizer"):
+        if m.rel != TD:
+            continue
+        for mname in ("fill_feat_", "fill_deriv_"):
+            fn = pf.methods(c).get(mname)
+            if fn is None:
+                continue
+            unb = set()
+
+            def mentions_unbounded(e):
+                for x in ast.walk(e):
+                    if isinstance(x, ast.Name) and x.id in unb:
+                        return x.id
+                    if isinstance(x, ast.Call) and pf.call_name(x) in ("np.exp", "numpy.exp") and x.args \
+                            and not _bounded_exp_arg(x.args[0]):
+                        return pf.src(x)[:40]
+                return None
+            nexp = 0
+            bad = None
+            stmts = sorted((s_ for s_ in pf.walk_no_nested(fn) if isinstance(s_, (ast.Assign, ast.AugAssign))),
+                           key=lambda s_: (s_.lineno, s_.col_offset))
+            for st in stmts:
+                for d in ast.walk(st.value):
+                    if isinstance(d, ast.BinOp) and isinstance(d.op, ast.Div):
+                        a, b = mentions_unbounded(d.left), mentions_unbounded(d.right)
+                        if a and b and a == b:
+                            bad = bad or (st, a)
+                if isinstance(st, ast.Assign) and len(st.targets) == 1 and isinstance(st.targets[0], ast.Name):
+                    t = st.targets[0].id
+                    v = st.value
+                    if isinstance(v, ast.Call) and pf.call_name(v) in ("np.exp", "numpy.exp") and v.args:
+                        nexp += 1
+                        (unb.discard if _bounded_exp_arg(v.args[0]) else unb.add)(t)
+                    elif mentions_unbounded(v) and not any(isinstance(x, ast.BinOp) and isinstance(x.op, ast.Div)
+                                                           for x in ast.walk(v)):
+                        unb.add(t)
+                    else:
+                        unb.discard(t)
+            if not nexp and not any(isinstance(x, ast.Call) and pf.call_name(x) == "np.exp" for x in ast.walk(fn)):
+                continue
+            n += 1
+            inst = "%s.%s: no quotient has the same unbounded exponential above and below" % (c.name, mname)
+            if bad:
+                st, a = bad
+                chk.violation("exp-ratio", TD, "%s.%s" % (c.name, mname), pf.src(st)[:110], st.lineno,
+                              "`%s` is an exponential of an argument that is not bounded above, and it occurs in the "
+                              "numerator and in the denominator of this quotient: for a large argument both overflow "
+                              "and the result is inf / inf = nan, although the limit is finite (evaluate at -|t|)" % a,
+                              instance=inst)
+            else:
+                chk.ok("exp-ratio", inst)
+    if n < 2:
+        raise core.AnalysisError("fewer than 2 feature-map routines use np.exp in %s" % TD)
+
+
+# ----------------------------------------------------------------------------
 # rule 4: index clipping for the spline plans (C, clang AST)
 # ----------------------------------------------------------------------------
 def rule_index_clip(chk, tree):
@@ -820,6 +901,9 @@ def analyse(chk):
     chk.rule("via-C07:cutoff", "the density compared with the cutoff is the total density (C07's rule, re-reported)")
     chk.guard(rule_cutoff_total)
     chk.floor("via-C07:cutoff", 4, "cutoff comparisons in the exponent functions and the two mapped kernels")
+    chk.rule("exp-ratio", "feature maps: no quotient with the same unbounded exponential in numerator and denominator")
+    chk.guard(rule_exp_ratio, prog)
+    chk.floor("exp-ratio", 2, "feature-map routines using np.exp")
     chk.rule("index-clip", "cider_ind_clip stores an index within [0, size) on every path (clang AST)")
     chk.guard(rule_index_clip, tree)
     chk.floor("index-clip", 1, "one index array element per iteration")
@@ -953,6 +1037,9 @@ def mutants(tree):
                expect="arg-landing"),
         Mutant("v1 non-SEP cutoff compares twice the total density", XE, "cond = X0T[:, 0].mean(0) < rhocut",
                "cond = X0T[:, 0].sum(0) < rhocut", expect="via-C07"),
+        Mutant("V4Map derivative evaluated at the unbounded exponential", TD,
+               "        tmp = np.exp(-np.abs(self.gamma * (x[i] - x[j])))\n        tmp = dfdy",
+               "        tmp = np.exp(self.gamma * (x[i] - x[j]))\n        tmp = dfdy", expect="exp-ratio"),
         Mutant("zero only res under rhocut", XE, "                res[..., cond] = 0.0\n                dres[..., cond] = 0.0\n",
                "                res[..., cond] = 0.0\n", expect="cutoff-pair"),
         Mutant("zero only f under rhocut (v2 SEP)", XE2, "                f[cond] = 0.0\n                df[cond] = 0.0\n", "                f[cond] = 0.0\n",
